@@ -7,6 +7,8 @@
 //!     R        read one response (lock-step point), 3 s timeout
 //!     G        release a handler that is held at the barrier (`/hold` routes)
 //!     X        shut down the client's sending side (the server sees EOF)
+//!     P<ms>    pause (only with the setting `,T<ms>` = a read timeout on the server's socket, and longer than it: the read the
+//!              server is blocked in fails with a timeout; to the server that is an unreadable stream, as an EOF there would be)
 //! impl:  one entry per R: `<status>,<hex body>,<c|k>` (c = response carried connection: close) or
 //!        `TIMEOUT` / `CLOSED`; then `|EOF` or `|OPEN` (state of the connection when the script ends)
 //!        and `|ok` / `|err` (result of Server::handle).
@@ -23,6 +25,7 @@
 //!   /errk/<k>   return Err of io::ErrorKind k (wb, to, intr, pipe, eof, reset, other) without responding
 //!   /cont       send 100 Continue, read the body, respond (differential use only)
 //!   /reader/<n> respond with an n-byte body through the streaming printer (sendr)
+//!   /alll = /all and /firstl = /first through the BufRead face of the body reader (read_until)
 //!   API variants with the behaviour of an existing route: /allparts (into_parts, get_stream), /allvec (BodyReader::vec, send) = /all;
 //!   /closev (Headers::from(Vec)), /closes (Headers::from(slice)) = /close; /empty0 = /none with an empty body through ok0 / send0
 //! pre-routing hook: `x-hook: answer` -> the hook answers 200 "hook" and returns Drop;
@@ -61,6 +64,13 @@ pub fn app(mut ctx: RequestContext, res: &mut ResponseHandle) -> io::Result<()> 
         let b = ctx.body().vec()?;
         let d = describe(&ctx, &b);
         res.send(&Status::OK, &nd, d)
+    } else if path.starts_with("/alll") {
+        // the same as /all through the BufRead face (read_until): an error ends the handler with Err
+        use std::io::BufRead;
+        let mut b = Vec::new();
+        loop { if ctx.body().read_until(b'\n', &mut b)? == 0 { break; } }
+        let d = describe(&ctx, &b);
+        res.ok(&nd, d)
     } else if path.starts_with("/all") {
         let mut b = Vec::new();
         ctx.body().read_to_end(&mut b)?;
@@ -78,6 +88,14 @@ pub fn app(mut ctx: RequestContext, res: &mut ResponseHandle) -> io::Result<()> 
         }
         let d = describe(&ctx, &b[..got]);
         res.ok(&nd, d)
+    } else if path.starts_with("/firstl") {
+        // the same as /first through the BufRead face: respond, then read the body line by line; an error is swallowed
+        use std::io::BufRead;
+        let d = describe(&ctx, b"");
+        res.ok(&nd, d)?;
+        let mut b = Vec::new();
+        loop { match ctx.body().read_until(b'\n', &mut b) { Ok(0) | Err(_) => break, Ok(_) => {} } }
+        Ok(())
     } else if path.starts_with("/first") {
         let d = describe(&ctx, b"");
         res.ok(&nd, d)?;
@@ -249,13 +267,17 @@ impl Conn {
     /// `warm` = a connection served on the SAME thread beforehand by another server with the given head limit:
     /// ('o', limit): a plain exchange; ('r', limit): the peer resets the connection while the handler sleeps, so that the
     /// handler's body-less answer cannot be written (whatever a thread keeps from one connection to the next must not show)
-    pub fn start_warm(max_head: usize, warm: Option<(char, usize)>) -> Conn {
+    pub fn start_warm(max_head: usize, warm: Option<(char, usize)>) -> Conn { Conn::start_full(max_head, warm, None) }
+
+    /// `timeout` = a read timeout (ms) on the server's side of the connection
+    pub fn start_full(max_head: usize, warm: Option<(char, usize)>, timeout: Option<u64>) -> Conn {
         let listener = TcpListener::bind("127.0.0.1:0").unwrap();
         let addr = listener.local_addr().unwrap();
         let client = TcpStream::connect(addr).unwrap();
         client.set_nodelay(true).unwrap();
         let (srv, _) = listener.accept().unwrap();
         srv.set_nodelay(true).unwrap();
+        if let Some(ms) = timeout { srv.set_read_timeout(Some(Duration::from_millis(ms))).unwrap(); }
         let server_fd = srv.as_raw_fd();
         let tid = std::sync::Arc::new(AtomicI32::new(0));
         let tid2 = tid.clone();
@@ -402,10 +424,17 @@ pub fn run(case: &str) -> String {
     let mut steps = case.split(';');
     // `N=<limit>` or `N=<limit>,W<o|r><limit of the warm-up server>`
     let ntok = steps.next().unwrap().strip_prefix("N=").unwrap();
-    let (n, warm): (usize, Option<(char, usize)>) = match ntok.split_once(",W") {
-        Some((a, w)) => (a.parse().unwrap(), Some((w.chars().next().unwrap(), w[1..].parse().unwrap()))),
-        None => (ntok.parse().unwrap(), None) };
-    let mut conn = Conn::start_warm(n, warm);
+    let mut toks = ntok.split(',');
+    let n: usize = toks.next().unwrap().parse().unwrap();
+    let (mut warm, mut timeout): (Option<(char, usize)>, Option<u64>) = (None, None);
+    for t in toks {
+        match &t[..1] {
+            "W" => warm = Some((t[1..].chars().next().unwrap(), t[2..].parse().unwrap())),
+            "T" => timeout = Some(t[1..].parse().unwrap()),
+            _ => panic!("bad setting"),
+        }
+    }
+    let mut conn = Conn::start_full(n, warm, timeout);
     let mut outs: Vec<String> = Vec::new();
     for st in steps {
         if st.is_empty() { continue; }
@@ -413,6 +442,7 @@ pub fn run(case: &str) -> String {
             "D" => conn.deliver(&unhex(&st[1..])),
             "R" => outs.push(conn.read_response()),
             "G" => { if let Quiet::Held = conn.quiescent() { GO.store(true, Ordering::SeqCst); while HELD.load(Ordering::SeqCst) { std::thread::yield_now(); } } }
+            "P" => std::thread::sleep(Duration::from_millis(st[1..].parse().unwrap())),
             "X" => { let _ = conn.quiescent(); let _ = conn.client.shutdown(std::net::Shutdown::Write); }
             _ => panic!("bad step"),
         }
